@@ -49,6 +49,22 @@ CHECKS = {
         "accepted; one recorded finding (C06-1) excluded by construction and reported",
         "DESIGN.md §4 C06",
     ),
+    "C08": (
+        "fault_enumeration",
+        "Hypothesis-generated write plans x stalled clients x release events on virtual-time "
+        "simulators of both workers; oracle = held-bytes bound checked on the 1x and the 4x "
+        "response (metamorphic: independent of size), witness connection / sibling stream, and "
+        "quiescence: no application send pending after the event",
+        "A client that stops reading (HTTP/1, kernel buffer 0..256 KiB) or whose HTTP/2 stream / "
+        "connection window is exhausted (also WebSocket over HTTP/2) receives responses of up to "
+        "~2 MiB; while stalled the bytes of returned sends minus bytes accepted must stay under "
+        "256 KiB + 2 chunks for both response sizes, a second connection and a sibling stream "
+        "must be served, and after resume / WINDOW_UPDATE (stream, connection, SETTINGS) / "
+        "RST_STREAM / EOF / reset / write error no send may still be pending at quiescence.",
+        "transport models stand for kernel socket buffers; two recorded findings (C08-1 HTTP/2 "
+        "bound, C08-2 HTTP/1 half-close) are reported and matched specifically",
+        "DESIGN.md §4 C08",
+    ),
     "C10": (
         "exploration",
         "Hypothesis-generated WebSocket message sequences x byte-level fragmentation x "
@@ -63,6 +79,21 @@ CHECKS = {
         "in-memory transport models; pings after an over-limit message unconstrained; one "
         "recorded third-party finding (C10-1, wsproto) excluded by construction and reported",
         "DESIGN.md §4 C10",
+    ),
+    "C11": (
+        "exploration",
+        "Hypothesis-generated handshakes x application decisions x closing orders on both "
+        "carriers and workers; oracle = handshake validity model, own SHA-1 accept token, "
+        "subprotocol/extension rules, close-code table",
+        "Header combinations (method, version, Upgrade/Connection token forms, key, "
+        "Sec-WebSocket-Version, offers; HTTP/2 CONNECT with/without :protocol) decide between "
+        "101/200 with a websocket application and 400 without one; accept / close (403) / HTTP "
+        "response extension / crash (500) are rendered exactly; websocket.disconnect carries the "
+        "client's code (1005 if none), 1000 after the application's own close, 1006 on loss, "
+        "including a close that races with a stalled server close.",
+        "requests lacking the upgrade routing tokens are ordinary HTTP (only 'no websocket "
+        "scope' is asserted); one recorded finding (C11-1) excluded by construction",
+        "DESIGN.md §4 C11",
     ),
     "C17": (
         "exploration",
